@@ -46,43 +46,60 @@ def readCapacity10 (data : Bytes) : Except PyErr PV := do
 def readCapacity16 (data : Bytes) : Except PyErr PV := do
   pure (.dict (← decodeInto data Gen.ReadCapacity16_datain_bits []))
 
-/-- `PersistentReserveInReadReservation.unmarshall_datain` -/
-def prReadReservation (data : Bytes) : Except PyErr PV := do
-  let gen := b2i (slice data 0 4)
-  let al := b2i (slice data 4 8)
-  let r : PDict := [("pr_generation", .int gen)]
-  if al = 0 then pure (.dict r)
+/-- body of `PersistentReserveInReadReservation.unmarshall_datain` once PRGENERATION and ADDITIONAL
+    LENGTH have been read -/
+def prReadReservationBody (gen al : Nat) (data : Bytes) : Except PyErr PV :=
+  if al = 0 then .ok (.dict [("pr_generation", .int gen)])
   else if al ≠ 16 then .error .valueError
-  else pure (.dict (← decodeInto data Gen.PersistentReserveInReadReservation_bits r))
+  else do pure (.dict (← decodeInto data Gen.PersistentReserveInReadReservation_bits [("pr_generation", .int gen)]))
+
+/-- `PersistentReserveInReadReservation.unmarshall_datain` -/
+def prReadReservation (data : Bytes) : Except PyErr PV :=
+  prReadReservationBody (b2i (slice data 0 4)) (b2i (slice data 4 8)) data
+
+/-- body of `PersistentReserveInReportCapabilities.unmarshall_datain` once the first table is decoded -/
+def prReportCapabilitiesBody (len : Nat) (r : PDict) (data : Bytes) : Except PyErr PV :=
+  if len = 0 then .ok (.dict [])
+  else if len ≠ 8 then .error .valueError
+  else do
+    let m ← decodeInto data Gen.PersistentReserveInReportCapabilities_pr_type_mask_bits []
+    pure (.dict ((PDict.del r "length").set "pr_type_mask" (.dict m)))
 
 /-- `PersistentReserveInReportCapabilities.unmarshall_datain` -/
 def prReportCapabilities (data : Bytes) : Except PyErr PV := do
   let r ← decodeInto data Gen.PersistentReserveInReportCapabilities_bits []
   let len ← getInt r "length"
-  if len = 0 then pure (.dict [])
-  else if len ≠ 8 then .error .valueError
-  else
-    let r := PDict.del r "length"
-    let m ← decodeInto data Gen.PersistentReserveInReportCapabilities_pr_type_mask_bits []
-    pure (.dict (r.set "pr_type_mask" (.dict m)))
+  prReportCapabilitiesBody len r data
+
+/-- standard disc information: the three msb/lsb pairs are combined into one number each -/
+def discInfoStandard (data : Bytes) : Except PyErr PV := do
+  let r ← decodeInto data Gen.ReadDiscInformation_sdi_bits []
+  let comb (r : PDict) (name : String) : Except PyErr PDict := do
+    let m ← getInt r (name ++ "_msb")
+    let l ← getInt r (name ++ "_lsb")
+    pure (((r.set name (.int (m * 256 + l))).del (name ++ "_msb")).del (name ++ "_lsb"))
+  let r ← comb r "number_of_sessions"
+  let r ← comb r "first_track_number_in_last_session"
+  let r ← comb r "last_track_number_in_last_session"
+  pure (.dict r)
+
+def discInfoTrack (data : Bytes) : Except PyErr PV := do
+  pure (.dict (← decodeInto data Gen.ReadDiscInformation_tri_bits []))
+
+def discInfoPow (data : Bytes) : Except PyErr PV := do
+  pure (.dict (← decodeInto data Gen.ReadDiscInformation_pow_bits []))
+
+/-- dispatch on the DISC INFORMATION DATA TYPE (`data[2] >> 5`) -/
+def discInfoByType (t : Nat) (data : Bytes) : Except PyErr PV :=
+  if t = 0 then discInfoStandard data
+  else if t = 1 then discInfoTrack data
+  else if t = 2 then discInfoPow data
+  else .error .notImplemented
 
 /-- `ReadDiscInformation.unmarshall_datain` -/
 def readDiscInformation (data : Bytes) : Except PyErr PV := do
   let b2 ← idx data 2
-  let t := b2 >>> 5
-  if t = 0 then
-    let r ← decodeInto data Gen.ReadDiscInformation_sdi_bits []
-    let comb (r : PDict) (name : String) : Except PyErr PDict := do
-      let m ← getInt r (name ++ "_msb")
-      let l ← getInt r (name ++ "_lsb")
-      pure (((r.set name (.int (m * 256 + l))).del (name ++ "_msb")).del (name ++ "_lsb"))
-    let r ← comb r "number_of_sessions"
-    let r ← comb r "first_track_number_in_last_session"
-    let r ← comb r "last_track_number_in_last_session"
-    pure (.dict r)
-  else if t = 1 then pure (.dict (← decodeInto data Gen.ReadDiscInformation_tri_bits []))
-  else if t = 2 then pure (.dict (← decodeInto data Gen.ReadDiscInformation_pow_bits []))
-  else .error .notImplemented
+  discInfoByType (b2 >>> 5) data
 
 /-! ### INQUIRY -/
 
@@ -173,27 +190,36 @@ def ataInformation (data : Bytes) : Except PyErr PDict := do
   let result := result.set "signature" (.dict r)
   pure (result.set "identify" (.dict r))
 
-/-- `Inquiry.unmarshall_datain(data, evpd)` -/
-def inquiry (data : Bytes) (evpd : Nat) : Except PyErr PV := do
+/-- `Inquiry.unmarshall_datain(data, evpd=0)`: standard INQUIRY data -/
+def inquiryStd (data : Bytes) : Except PyErr PV := do
   let result ← decodeInto data Gen.Inquiry_datain_bits []
-  if evpd = 0 then
-    pure (.dict (← decodeInto data Gen.Inquiry_standard_bits result))
-  else
-    let result ← decodeInto data Gen.Inquiry_pagecode_bits result
-    let data := data.take (4 + b2i (slice data 2 4))
-    let pc ← getInt result "page_code"
-    if pc = 0x00 then pure (.dict (result.set "vpd_pages" (.list ((data.drop 4).map PV.int))))
-    else if pc = 0xB0 then pure (.dict (← decodeInto data Gen.Inquiry_block_limits_bits result))
-    else if pc = 0xB1 then pure (.dict (← decodeInto data Gen.Inquiry_block_dev_char_bits result))
-    else if pc = 0xB2 then pure (.dict (← decodeInto data Gen.Inquiry_logical_block_provisioning_bits result))
-    else if pc = 0xB3 then pure (.dict (← decodeInto data Gen.Inquiry_referrals_bits result))
-    else if pc = 0x80 then pure (.dict (result.set "unit_serial_number" (.bytes (data.drop 4))))
-    else if pc = 0x86 then pure (.dict (← decodeInto data Gen.Inquiry_extended_bits result))
-    else if pc = 0x89 then pure (.dict (result.update (← ataInformation data)))
-    else if pc = 0x83 then
-      let ds ← designators (data.drop 4)
-      pure (.dict (result.set "designator_descriptors" (.list ds)))
-    else pure .none     -- falls off the end of the function
+  pure (.dict (← decodeInto data Gen.Inquiry_standard_bits result))
+
+/-- the page dispatch of `Inquiry.unmarshall_datain(data, evpd=1)`; `data` already cut to PAGE LENGTH + 4 -/
+def inquiryVpdPage (pc : Nat) (data : Bytes) (result : PDict) : Except PyErr PV := do
+  if pc = 0x00 then pure (.dict (result.set "vpd_pages" (.list ((data.drop 4).map PV.int))))
+  else if pc = 0xB0 then pure (.dict (← decodeInto data Gen.Inquiry_block_limits_bits result))
+  else if pc = 0xB1 then pure (.dict (← decodeInto data Gen.Inquiry_block_dev_char_bits result))
+  else if pc = 0xB2 then pure (.dict (← decodeInto data Gen.Inquiry_logical_block_provisioning_bits result))
+  else if pc = 0xB3 then pure (.dict (← decodeInto data Gen.Inquiry_referrals_bits result))
+  else if pc = 0x80 then pure (.dict (result.set "unit_serial_number" (.bytes (data.drop 4))))
+  else if pc = 0x86 then pure (.dict (← decodeInto data Gen.Inquiry_extended_bits result))
+  else if pc = 0x89 then pure (.dict (result.update (← ataInformation data)))
+  else if pc = 0x83 then
+    let ds ← designators (data.drop 4)
+    pure (.dict (result.set "designator_descriptors" (.list ds)))
+  else pure .none     -- falls off the end of the function
+
+/-- `Inquiry.unmarshall_datain(data, evpd=1)` -/
+def inquiryVpd (data : Bytes) : Except PyErr PV := do
+  let result ← decodeInto data Gen.Inquiry_datain_bits []
+  let result ← decodeInto data Gen.Inquiry_pagecode_bits result
+  let pc ← getInt result "page_code"
+  inquiryVpdPage pc (data.take (4 + b2i (slice data 2 4))) result
+
+/-- `Inquiry.unmarshall_datain(data, evpd)` -/
+def inquiry (data : Bytes) (evpd : Nat) : Except PyErr PV :=
+  if evpd = 0 then inquiryStd data else inquiryVpd data
 
 /-! ### MODE SENSE -/
 
